@@ -325,6 +325,8 @@ def replay(ctx, case):
     k = case["kind"]
     if k == "iso":
         check_iso(ctx, case["o"])
+    elif "part" in ctx.shard:
+        run(ctx, ctx.shard)      # original shard restored by the runner: the same seeded windows are revisited
     elif k in ("nth", "nth-bad"):
         run_nth(ctx, 5)
     else:
